@@ -46,6 +46,29 @@ fn dump(node: &SyntaxNode, out: &mut Vec<String>) {
     out.push(")".to_string());
 }
 
+/// `steps <hex>`: parse under a step budget (hook): `steps=<n> ntok=<tokens>`; a parser that
+/// stops consuming panics with the budget marker instead of hanging.
+pub fn steps(text: &str) -> String {
+    #[cfg(feature = "verif")]
+    {
+        let budget = 400 * (text.len() as u64 + 1) + 10_000;
+        syntax::verif_hooks::reset(budget);
+        let p = syntax::parse(text);
+        let n = syntax::verif_hooks::steps();
+        let ntok = p
+            .syntax_node()
+            .descendants_with_tokens()
+            .filter(|e| e.as_token().is_some())
+            .count();
+        return format!("steps={} ntok={}", n, ntok);
+    }
+    #[cfg(not(feature = "verif"))]
+    {
+        let _ = text;
+        "no-hook".to_string()
+    }
+}
+
 pub fn parse(text: &str, hashed: bool) -> String {
     let p = syntax::parse(text);
     let mut out = Vec::new();
